@@ -417,6 +417,23 @@ def run_conversation(cimpl, simpl, scfg, script, seed=0, latency=0, http_latency
                 a = {'k': op['k'], 'acc': acc}
             elif k == 'cdisc':
                 e.cw.app_disconnect()
+            elif k == 'ssendsdisc':
+                # one server-side application thread: k sends, then disconnect(sid)
+                slot = max(e.sw.sids) if e.sw.sids else None
+                acc = []
+                if slot is not None:
+                    before = len(e.sw.accepted.get(slot, []))
+                    e.sw.app_burst(slot, op['k'], then_disconnect=True)
+                    e.quiesce()
+                    acc = list(e.sw.accepted.get(slot, []))[before:]
+                a = {'k': op['k'], 'acc': acc}
+            elif k == 'bothdisc':
+                # both applications disconnect at the same moment
+                slot = max(e.sw.sids) if e.sw.sids else None
+                e.cw.app_disconnect()
+                if slot is not None:
+                    e.sw.nreq += 1
+                    e.sw.app_disconnect_with_id(slot, e.sw.nreq)
             elif k == 'sdisc':
                 slot = max(e.sw.sids) if e.sw.sids else None
                 if slot is not None:
